@@ -507,3 +507,23 @@ for _c in ("_SyncCache", "_AsyncCache"):
     brk(f"c12_key_rebound_{_c}", [E(f"helpers.caching.{_c}.__call__", lambda n: isinstance(n, ast.Match), before("if not kwargs:" + NL + "    key = args"))], {"C12": ["C12.1"]})
 for kind, fq in (("sync", "helpers.retries._wrap_sync.wrapped"), ("async", "helpers.retries._wrap_async.wrapped")):
     brk(f"c14_attempt_numbers_from_two_{kind}", [E(fq, lambda n: isinstance(n, ast.AnnAssign) and U(n.target) == "attempt", sub("= 0", "= 1")), E(fq, lambda n: isinstance(n, ast.Compare) and "limit" in U(n), sub("<", "<="))], {"C14": ["C14.7"]})
+
+# =============================================================================================== round 5 additions
+brk("c01_missing_state_is_lookup_error", [E("mod:context.types", lambda n: isinstance(n, ast.ClassDef) and n.name == "MissingState", sub("(Exception)", "(LookupError)"))], {"C01": ["C01.6"]})
+ben("c01_missing_context_is_lookup_error", [E("mod:context.types", lambda n: isinstance(n, ast.ClassDef) and n.name == "MissingContext", sub("(Exception)", "(LookupError)"))], ["C01", "C02"], note="only MissingState crossing the LookupError handler matters")
+ben("c01_sentinel_lookup", [E("mod:context.state", lambda n: isinstance(n, ast.Assign) and U(n).startswith("__all__"), after("_ABSENT = object()")), E("context.state.ScopeState.state", lambda n: isinstance(n, ast.If) and "in self._state" in U(n.test), lambda s: "found = self._state.get(state, _ABSENT)" + NL + s.replace("if state in self._state:", "if found is not _ABSENT:", 1).replace("return cast(StateType, self._state[state])", "return cast(StateType, found)", 1))], ["C01"])
+brk("c02_parent_notified_unguarded", [E(f"{SMx}._complete_if_able", lambda n: isinstance(n, ast.If) and "parent" in U(n.test), lambda s: s.replace(" and (not parent._completed.done())", "").replace(" and not parent._completed.done()", ""))], {"C02": ["C02.9"], "C09": ["C09.6"]})
+for _c in ("_SyncCache", "_AsyncCache"):
+    brk(f"c12_deadline_computed_once_{_c}", [E(f"helpers.caching.{_c}.__init__", lambda n: isinstance(n, ast.FunctionDef) and n.name == "next_expire_time" and "monotonic" in U(n), lambda s: "fixed_deadline = monotonic() + expiration" + NL + s.replace("return monotonic() + expiration", "return fixed_deadline"))], {"C12": ["C12.5"]} if _c == "_SyncCache" else {"C12": ["C12.5"], "C13": ["C13.6"]})
+brk("c14_log_renders_eagerly", [E(f"{SMx}.log", lambda n: isinstance(n, ast.Expr) and "self._logger.log" in U(n), lambda s: s.replace("*args,", "").replace("{message}", "{message % args if args else message}"))], {"C14": ["C14.8"], "C19": ["C19.5"], "C10": ["C10.1"]})
+brk("c15_throttle_skips_non_coroutine_functions", [E("helpers.throttling.throttle._wrap", lambda n: isinstance(n, ast.Return), before("if not iscoroutinefunction(function):" + NL + "    return function"))], {"C15": ["C15.5"]})
+brk("c16_timeout_skips_non_coroutine_functions", [E("helpers.timeouted.timeout._wrap", lambda n: isinstance(n, ast.Return), before("if not callable(function):" + NL + "    return function"))], {"C16": ["C16.1"]})
+brk("c16_waits_for_the_task_after_timeout", [E("helpers.timeouted._AsyncTimeout.__call__", lambda n: isinstance(n, ast.Return) and "await" in U(n), lambda s: "try:" + NL + "    " + s + NL + "except TimeoutError:" + NL + "    await task" + NL + "    raise")], {"C16": ["C16.6"]})
+brk("c18_get_tests_truthiness_of_instance", [E("helpers.asynchrony._ExecutorWrapper.__get__", lambda n: isinstance(n, ast.If), lambda s: s.replace("if owner is None or instance is None:", "if not (owner and instance):", 1))], {"C18": ["C18.1"]})
+for _c in ("_SyncCache", "_AsyncCache"):
+    brk(f"c12_get_tests_truthiness_of_instance_{_c}", [E(f"helpers.caching.{_c}.__get__", lambda n: isinstance(n, ast.If), lambda s: s.replace("if owner is None or instance is None:", "if not (owner and instance):", 1))], {"C12": ["C12.1"]})
+brk("c19_detached_task_in_empty_context", [E("context.tasks.TaskGroupContext.run", lambda n: isinstance(n, ast.Call) and "get_event_loop" in U(n) and "create_task" in U(n.func), lambda s: s.replace("context=copy_context()", "context=None"))], {"C19": ["C19.7"], "C03": ["C03.3"], "C10": ["C10.8"]})
+brk("c19_trial_rendering", [E(f"{SMx}.log", lambda n: isinstance(n, ast.Expr) and "self._logger.log" in U(n), before("if args:" + NL + "    try:" + NL + "        message % args" + NL + "    except (TypeError, ValueError):" + NL + "        return"))], {"C19": ["C19.5"]})
+ben("c06_optional_group_argument", [E("context.tasks.TaskGroupContext.__init__", lambda n: isinstance(n, ast.FunctionDef), lambda s: s.replace("def __init__(\n        self,\n    )", "def __init__(\n        self,\n        group: TaskGroup | None = None,\n    )").replace("self._group: TaskGroup = TaskGroup()", "self._group: TaskGroup = group if group is not None else TaskGroup()"))], ["C06", "C07", "C02"])
+ben("c17_assert_restates_registration", [E("utils.queue.AsyncQueue.__anext__", stmt("self._waiting = None"), before("assert self._waiting is waiting"))], ["C17"])
+brk("c17_assert_on_unrelated_state", [E("utils.queue.AsyncQueue.__anext__", stmt("self._waiting = None"), before("assert not self._queue"))], {"C17": ["C17.6"]}, note="an assertion that can fire (elements enqueued meanwhile) skips the cleanup")
